@@ -566,6 +566,10 @@ pub fn run_case<T>(f: impl Future<Output = T>) -> T {
     drop(rt);
     // leave a gap so that nothing of the next case coincides with leftovers
     vclock::advance_ms(10);
+    if vclock::now_ns() > (1u64 << 62) {
+        // about 146 years of virtual time used up on this thread (cases that jump far ahead)
+        vclock::reset();
+    }
     out
 }
 
